@@ -332,7 +332,7 @@ func init() {
 			runCases(c, theDriver, countRedefCases(r, n, "decode-failure-not-reported"))
 		}})
 	register(&Property{ID: "C07",
-		Rule:  "real Stream() attempts with server ids {1, 2^31-1, 2^31, 2^32-1, random}, file names of 0..255 bytes incl. empty, path-like, dotted, blank, NUL, quoted, non-UTF-8 and random-byte names, offsets {4, 2^32-1, 2^31, random}, sequences of up to 4 attempts on one streamer, some refused before the dump, some ending only after the format description was received, the position moved by the caller between attempts; attempts that deliver some transactions and then fail in the handler, followed by an attempt that must ask for the end label of the last accepted transaction; the master decodes the COM_QUERY and COM_BINLOG_DUMP it received. Non-trivial: every scenario",
+		Rule:  "real Stream() attempts with server ids {0, 1, 65535, 65536, 2^31-1, 2^31, 2^32-1, random}, file names of 0..255 bytes incl. empty, path-like, dotted, blank, NUL, quoted, non-UTF-8 and random-byte names, offsets {4, 2^32-1, 2^31, random}, sequences of up to 4 attempts on one streamer, some refused before the dump, some ending only after the format description was received, the position moved by the caller between attempts; attempts that deliver some transactions and then fail in the handler, followed by an attempt that must ask for the end label of the last accepted transaction; the master decodes the COM_QUERY and COM_BINLOG_DUMP it received. Non-trivial: every scenario",
 		Extra: extraC07})
 	register(&Property{ID: "C08",
 		Rule:  "real Stream() with handlers that (a) keep deep references and re-read every delivered transaction after the stream ended, (b) overwrite every delivered byte slice; histories with string/blob/bit/set values (sub-slices of the event buffer) and, for every formatted type, one value repeated in all rows (its zero or a non-zero one; all TIMESTAMP columns in the same second), the scribbling run first; packet sizes around the driver's buffer thresholds (4091..4097, 8187..8193, 262139..262145 byte payloads); master far ahead vs lock-step; plus readBinlogEvent over a scripted connection that reuses one buffer; multi-file histories (rotations, restarts) through parseEvents with every delivered transaction - positions included - rendered at delivery and again at the end. Non-trivial: every scenario",
@@ -685,7 +685,7 @@ func extraC07(col *Collector, r *RNG, tier string) {
 	m := sharedMaster()
 	const want = "SET @master_binlog_checksum=@@global.binlog_checksum"
 	for i := 0; i < n; i++ {
-		id := []uint32{1, 1<<31 - 1, 1 << 31, 1<<32 - 1, uint32(r.U64())}[i%5]
+		id := []uint32{1, 1<<31 - 1, 1 << 31, 1<<32 - 1, uint32(r.U64()), 0, 65535, 65536}[i%8]
 		name := randName(r, []int{1, 2, 17, 254, 255, r.Range(1, 255)}[i%6])
 		if i%3 == 1 {
 			name = oddFileName(r, i/3)
@@ -978,6 +978,17 @@ func rereadCheck(col *Collector, h *hist) {
 		return
 	}
 	_, calls, _ := runParse(h, splitPackets(fields(ans)["packets"]), firstFile, 4, -1, "", false)
+	// ... and once more with a handler that REFUSES one of the transactions: what it was handed stays the caller's to
+	// read (log it, retry it) after the attempt ended with that error
+	if len(calls) > 0 {
+		k := len(line) % len(calls)
+		_, calls2, _ := runParse(h, splitPackets(fields(ans)["packets"]), firstFile, 4, k, "", false)
+		for _, c := range calls2 {
+			if strings.Contains(c, "!changed-after-delivery:") {
+				calls = append(calls, c)
+			}
+		}
+	}
 	ok, note := true, ""
 	for i, c := range calls {
 		if k := strings.Index(c, "!changed-after-delivery:"); k >= 0 {
